@@ -2,7 +2,7 @@
    Statements only; proofs are in Lemmas/DynTheorems.v. *)
 From Coq Require Import String List Bool Arith.
 From SM Require Import Ident Ast Front Spec Gir Codegen Sem Dyn Script Static.
-From SM.Lemmas Require Import FrontLemmas FrontTop DynLemmas DynTheorems Examples.
+From SM.Lemmas Require Import FrontLemmas FrontTop DynLemmas DynTheorems BudgetLemmas Examples.
 Import ListNotations.
 Open Scope string_scope.
 Open Scope list_scope.
@@ -38,6 +38,15 @@ Theorem C19_poisoned_wrapper_is_unavailable :
   into_state s poisoned = inr poisoned.
 Proof. exact poisoned_ops. Qed.
 
+(* the async future of handle() dropped at its b-th Pending, for every b: the wrapper is poisoned, or
+   the call had already completed and everything is exactly as in the complete run *)
+Theorem C19_dropped_handle_future_poisons_or_is_the_complete_call :
+  forall (g : gir) (gd : gdyn) (d : dyn) (ev : ident) (pl : option nat) (w : oracle) (b : nat),
+  let hn := handle g gd d ev pl w None in
+  let hb := handle g gd d ev pl w (Some b) in
+  (ho_res hb = HAbandoned /\ ho_dyn hb = Build_dyn None /\ d_inner d <> None) \/ hb = hn.
+Proof. exact handle_budget. Qed.
+
 (* completed calls keep the wrapper in a declared leaf (with C01): accepted definitions only *)
 Theorem C19_completed_dispatch_stays_in_a_declared_state :
   forall (d : defn) (m : machine) (items : list sitem) (ps : pstate) (feat : bool),
@@ -63,3 +72,4 @@ Proof. vm_compute. repeat split. Qed.
 Print Assumptions C19_outcomes_of_handle.
 Print Assumptions C19_poisoned_wrapper_is_unavailable.
 Print Assumptions C19_completed_dispatch_stays_in_a_declared_state.
+Print Assumptions C19_dropped_handle_future_poisons_or_is_the_complete_call.
